@@ -1,6 +1,7 @@
 ---- MODULE Redc ----
 EXTENDS Naturals, Sequences, TLC
-CONSTANTS W, N, THR      \* THR: keep carry iff modulus[N] >= THR  (code: B/2 - 1)
+CONSTANTS W, N, THR,     \* THR: mul_redc keeps the carry iff modulus[N] >= THR  (code: B/2 - 1)
+          THR2, MODE      \* THR2: square_redc takes the wide-carry branch iff modulus[N] >= THR2 (code: B/4 - 1); MODE = "mul" | "square"
 B == 2^W
 RECURSIVE Val(_,_)
 Val(x, n) == IF n = 0 THEN 0 ELSE x[n] * B^(n-1) + Val(x, n-1)
@@ -27,12 +28,52 @@ MulRedc(a, b, m, inv) ==
       borrow == v < mv
       out == IF o.carry # 0 \/ ~borrow THEN (v + B^N - mv) % B^N ELSE v
   IN [out |-> out, dropped |-> o.dropped, carry |-> o.carry # 0, sub |-> (o.carry # 0 \/ ~borrow)]
+\* square_redc as in mul_redc.rs: diagonal term, doubled cross terms with a two-part carry (carry_lo word +
+\* carry_hi bit), one reduction row per outer iteration, carry_outer in {0,1,2} when the modulus is wide.
+\* `bad` collects every debug assertion of the code and the one thing the code cannot represent (both carries
+\* of carrying_double_mul_add set at once).
+SquareRedc(a, m, inv) ==
+  LET RECURSIVE Cross(_,_,_,_,_,_)
+      Cross(i, j, res, clo, chi, bad) ==
+        IF j > N THEN <<res, clo, chi, bad>>
+        ELSE LET wide == a[i] * a[j]
+                 c1 == 2 * wide >= B * B
+                 w2 == (2 * wide) % (B * B)
+                 carries == res[j] + clo + (IF chi THEN B ELSE 0)
+                 c2 == w2 + carries >= B * B
+                 w3 == (w2 + carries) % (B * B)
+             IN Cross(i, j + 1, [res EXCEPT ![j] = w3 % B], w3 \div B, c1 \/ c2, bad \/ (c1 /\ c2))
+      RECURSIVE Reduce(_,_,_,_)
+      Reduce(j, res, mm, carry) ==
+        IF j > N THEN <<res, carry>>
+        ELSE LET t == m[j] * mm + res[j] + carry IN Reduce(j + 1, [res EXCEPT ![j - 1] = t % B], mm, t \div B)
+      RECURSIVE Outer(_,_,_,_)
+      Outer(i, res, couter, bad) ==
+        IF i > N THEN [res |-> res, couter |-> couter, bad |-> bad]
+        ELSE LET t == a[i] * a[i] + res[i]
+                 cr == Cross(i, i + 1, [res EXCEPT ![i] = t % B], t \div B, FALSE, bad)
+                 r1 == cr[1]  clo == cr[2]  chi == cr[3]
+                 mm == (r1[1] * inv) % B
+                 t0 == mm * m[1] + r1[1]
+                 rd == Reduce(2, r1, mm, t0 \div B)
+                 r2 == rd[1]  carry == rd[2]
+                 bad1 == cr[4] \/ (t0 % B # 0)
+             IN IF m[N] >= THR2
+                THEN LET wide == couter + clo + (IF chi THEN B ELSE 0) + carry
+                     IN Outer(i + 1, [r2 EXCEPT ![N] = wide % B], wide \div B, bad1 \/ (wide \div B > 2))
+                ELSE Outer(i + 1, [r2 EXCEPT ![N] = (clo + carry) % B], couter,
+                           bad1 \/ chi \/ couter # 0 \/ clo + carry >= B)
+      o == Outer(1, [i \in 1..N |-> 0], 0, FALSE)
+      v == Val(o.res, N)   mv == Val(m, N)
+      borrow == v < mv
+      out == IF o.couter > 0 \/ ~borrow THEN (v + B^N - mv) % B^N ELSE v
+  IN [out |-> out, dropped |-> o.bad \/ o.couter > 1, carry |-> o.couter > 0, sub |-> (o.couter > 0 \/ ~borrow)]
 VARIABLES a, b, m, done, out
 Init == /\ m \in [1..N -> 0..(B-1)] /\ m[1] % 2 = 1 /\ Val(m, N) >= 3
         /\ a \in [1..N -> 0..(B-1)] /\ Val(a, N) < Val(m, N)
-        /\ b \in [1..N -> 0..(B-1)] /\ Val(b, N) < Val(m, N)
+        /\ IF MODE = "mul" THEN b \in [1..N -> 0..(B-1)] /\ Val(b, N) < Val(m, N) ELSE b = a
         /\ done = FALSE /\ out = <<>>
-Next == ~done /\ done' = TRUE /\ out' = MulRedc(a, b, m, InvOf(m[1])) /\ UNCHANGED <<a, b, m>>
+Next == ~done /\ done' = TRUE /\ out' = (IF MODE = "mul" THEN MulRedc(a, b, m, InvOf(m[1])) ELSE SquareRedc(a, m, InvOf(m[1]))) /\ UNCHANGED <<a, b, m>>
 Spec == Init /\ [][Next]_<<a, b, m, done, out>>
 Contract == done => LET mv == Val(m, N) IN /\ out.out < mv /\ (out.out * B^N) % mv = (Val(a,N) * Val(b,N)) % mv /\ ~out.dropped
 NoCarry == done => ~out.carry
